@@ -197,7 +197,7 @@ READ_ONLY_CALLS = {
 
 KINDS_DOC = """ReadInto M | ReadIntoSigned M | StrcpyGuarded G | StrcpyLiteral L | StrcpyLine M |
 StrcpyUnguarded | StrncpyBounded B | StrncpyUnguarded | Getline M | WriteAtMost M | WriteExactly K |
-PtrLoopBounded B | PtrLoopUnbounded | CopyGuarded G X | IndexLoopUnbounded X | Unrecognised"""
+PtrLoopBounded B | PtrLoopUnbounded | CopyGuarded G X | IndexLoopBounded B X | IndexLoopUnbounded X | Unrecognised"""
 
 
 class Site:
@@ -506,11 +506,20 @@ def analyse(file, text, decl_m, consts, files, flags):
             continue
         lm = re.search(r'\bfor\s*\(\s*(\w+)\s*=\s*0\s*;\s*\1\s*<\s*([^;]+);\s*\1\+\+\s*\)\s*%s\s*\[\s*\1\s*\]\s*=' % nb, S)
         if lm and ix in (lm.group(1), lm.group(1) + '++'):
-            if not any(s.kind == 'IndexLoopUnbounded' for s in sites):
+            if not any(s.kind in ('IndexLoopUnbounded', 'IndexLoopBounded') for s in sites):
                 i = re.escape(lm.group(1))
                 extra = len(re.findall(r'\b%s\s*\[\s*%s(?:\+\+)?\s*\]\s*=(?!=)' % (nb, i), S)) - 1
                 bound = lm.group(2).strip()
-                add('IndexLoopUnbounded', [extra], note='index runs to %s, which nothing bounds; %d more stores follow' % (bound, extra))
+                # `i < n && i < sizeof(buf) - K`: the index stops at capacity - K
+                bm = re.search(r'&&\s*%s\s*<\s*sizeof\s*\(\s*%s\s*\)\s*-\s*(\d+)\s*$' % (i, nb), bound)
+                bl = re.search(r'&&\s*%s\s*<\s*(\d+)\s*$' % i, bound)
+                if bm and capv >= 0:
+                    add('IndexLoopBounded', [capv - int(bm.group(1)), extra],
+                        note='index stops at sizeof(%s) - %s; %d more stores follow' % (buf, bm.group(1), extra))
+                elif bl:
+                    add('IndexLoopBounded', [int(bl.group(1)), extra], note='index stops at %s; %d more stores follow' % (bl.group(1), extra))
+                else:
+                    add('IndexLoopUnbounded', [extra], note='index runs to %s, which nothing bounds; %d more stores follow' % (bound, extra))
             cover(m)
             continue
         add('Unrecognised', note='indexed store %s[%s]' % (buf, ix))
@@ -746,6 +755,67 @@ def scan_guards(repo, consts, flags):
                re.search(r'depth_guard\w*\s+\w+\s*\(', seg):
                 cmpop = re.search(r'(>=|>)\s*%s' % name, pc)
                 g['parse_depth_limit'] = val if (cmpop and cmpop.group(1) == '>') else val - 1
+    # the expression parser bounds the tokens of one expression: next_token counts what it fetches
+    g['expr_token_limit'] = None
+    m = re.search(r'static\s+const\s+(?:std::)?size_t\s+MAX_TOKENS\s*=\s*(\d+)\s*;', ph)
+    nt = re.search(r'token_t&\s+next_token\s*\([^)]*\)\s*const\s*\{', ph)
+    if m and nt:
+        body = norm(ph[nt.end() - 1:match_brace(ph, nt.end() - 1)])
+        if re.search(r'if \(use_lookahead\) \{ use_lookahead = false; \} else \{ if \(\+\+token_count > MAX_TOKENS\) throw_ ?\(parse_error,[^;]*\); '
+                     r'lookahead\.next\(in, tflags\); \}', body) and \
+           re.search(r'\btoken_count\s*=\s*0\s*;', pc):
+            g['expr_token_limit'] = int(m.group(1))
+    # the query parser bounds its nesting and the number of terms
+    qh = strip_comments(open(os.path.join(src, 'query.h'), errors='replace').read())
+    qc = strip_comments(open(os.path.join(src, 'query.cc'), errors='replace').read())
+    g['query_depth_limit'] = g['query_term_limit'] = None
+    qt = re.search(r'query_t::parser_t::parse_query_term\s*\([^)]*\)\s*\{', qc)
+    if qt:
+        body = norm(qc[qt.end() - 1:match_brace(qc, qt.end() - 1)])
+        md = re.search(r'static\s+const\s+(?:std::)?size_t\s+MAX_NESTING_DEPTH\s*=\s*(\d+)\s*;', qh)
+        mt = re.search(r'static\s+const\s+(?:std::)?size_t\s+MAX_TERMS\s*=\s*(\d+)\s*;', qh)
+        if mt and re.match(r'\{ expr_t::ptr_op_t node; if \(\+\+term_count > MAX_TERMS\) throw_ ?\(parse_error,', body):
+            g['query_term_limit'] = int(mt.group(1))
+        if md and re.search(r'case lexer_t::token_t::LPAREN: if \(\+\+nesting_depth > MAX_NESTING_DEPTH\) throw_ ?\(parse_error,[^;]*\); '
+                            r'node = parse_query_expr\(tok_context, true\); --nesting_depth;', body):
+            g['query_depth_limit'] = int(md.group(1))
+    # amount.cc parse_conversion refuses a chain of smaller units that leads back to `larger`
+    ac = strip_comments(open(os.path.join(src, 'amount.cc'), errors='replace').read())
+    pcv = re.search(r'void amount_t::parse_conversion\s*\([^)]*\)\s*\{', ac)
+    g['conversion_cycle_guard'] = False
+    if pcv:
+        body = norm(ac[pcv.end() - 1:match_brace(ac, pcv.end() - 1)])
+        g['conversion_cycle_guard'] = bool(re.search(
+            r'if \(larger\.has_commodity\(\)\) for \(const commodity_t \* comm = &smaller\.commodity\(\); ; \) \{ '
+            r'if \(\*comm == larger\.commodity\(\)\) throw_ ?\(amount_error,[^;]*\); if \(! comm->smaller\(\)\) break; '
+            r'comm = &comm->smaller\(\)->commodity\(\); \} larger \*= smaller\.number\(\);', body))
+    # amount.cc in_place_roundto refuses more places than precision_t counts (uint_least16_t)
+    g['roundto_places_limit'] = None
+    rt = re.search(r'void amount_t::in_place_roundto\s*\(int places\)\s*\{', ac)
+    ah = strip_comments(open(os.path.join(src, 'amount.h'), errors='replace').read())
+    if rt and re.search(r'typedef\s+uint_least16_t\s+precision_t\s*;', ah):
+        body = norm(ac[rt.end() - 1:match_brace(ac, rt.end() - 1)])
+        k = body.find('mpz_ui_pow_ui')
+        gd = re.search(r'if \(labs\(places\) > std::numeric_limits<precision_t>::max\(\)\) throw_ ?\(amount_error,', body)
+        if gd and 0 <= gd.start() < k:
+            g['roundto_places_limit'] = 65535
+    # scope.h: the accessor for unevaluated expression arguments checks that the argument exists
+    sh = norm(strip_comments(open(os.path.join(src, 'scope.h'), errors='replace').read()))
+    g['expr_argument_guard'] = bool(re.search(
+        r'call_scope_t::get<expr_t::ptr_op_t>\(std::size_t index, bool\) \{ if \(index >= args\.size\(\)\) throw_ ?\(calc_error,[^;]*\); '
+        r'return args\[index\]\.as_any<expr_t::ptr_op_t>\(\); \}', sh))
+    # main.cc: the --script loop ends when reading fails, and an unreadable file is an error
+    mc = norm(strip_comments(open(os.path.join(src, 'main.cc'), errors='replace').read()))
+    g['script_loop_guard'] = bool(re.search(
+        r'ifstream in\(script_file\); if \(! in\.good\(\)\) throw_ ?\(std::runtime_error,[^;]*\); status = 0; std::string line; '
+        r'while \(status == 0 && std::getline\(in, line\)\) \{', mc)) and not re.search(r'while \([^)]*! in\.eof\(\)\)', mc)
+    # filters.cc: no filter reaches the master account through a generated transaction's journal
+    fc = strip_comments(open(os.path.join(src, 'filters.cc'), errors='replace').read())
+    g['no_xact_journal_master'] = 'xact.journal->master' not in squeeze(fc)
+    # account.cc find_account keeps no fixed buffer in its (recursive) frame
+    acc = strip_comments(open(os.path.join(src, 'account.cc'), errors='replace').read())
+    fa = re.search(r'account_t::find_account\s*\([^)]*\)\s*\{', acc)
+    g['find_account_no_frame_buffer'] = bool(fa and not re.search(r'\bchar\s+\w+\s*\[', acc[fa.end():match_brace(acc, fa.end() - 1)]))
     # (d) the period parser rejects `every 0 <unit>`
     tc = strip_comments(open(os.path.join(src, 'times.cc'), errors='replace').read())
     m = re.search(r'case\s+lexer_t::token_t::TOK_EVERY\s*:(.*?)case\s+lexer_t::token_t::TOK_YEARS', tc, re.S)
@@ -765,6 +835,14 @@ def scan_guards(repo, consts, flags):
     g['int_div_guard'] = bool(dv and re.search(
         r'case INTEGER:\s*switch \(val\.type\(\)\) \{\s*case INTEGER:\s*if\s*\(\s*val\.as_long\(\)\s*==\s*0\s*\)\s*throw_\s*\(', norm(dv.group(0))))
     return g
+
+
+def opt(v):
+    return 'None' if v is None else 'Some %d' % v
+
+
+def bl(v):
+    return 'true' if v else 'false'
 
 
 def coq_string(s):
@@ -810,6 +888,23 @@ def generate(repo):
           'Definition src_line_too_long_guard : bool := %s.' % ('true' if g['line_too_long_guard'] else 'false'),
           '(* value.cc operator/=: INTEGER / INTEGER tests the divisor before dividing *)',
           'Definition src_int_div_guard : bool := %s.' % ('true' if g['int_div_guard'] else 'false'),
+          '(* parser.h next_token: bound on the tokens fetched for one expression *)',
+          'Definition src_expr_token_limit : option Z := %s.' % opt(g['expr_token_limit']),
+          '(* query.cc parse_query_term: bounds on parenthesis nesting and on the number of terms *)',
+          'Definition src_query_depth_limit : option Z := %s.' % opt(g['query_depth_limit']),
+          'Definition src_query_term_limit : option Z := %s.' % opt(g['query_term_limit']),
+          '(* amount.cc in_place_roundto: bound on |places| (precision_t is uint_least16_t) *)',
+          'Definition src_roundto_places_limit : option Z := %s.' % opt(g['roundto_places_limit']),
+          '(* amount.cc parse_conversion rejects a conversion chain that leads back to its left side *)',
+          'Definition src_conversion_cycle_guard : bool := %s.' % bl(g['conversion_cycle_guard']),
+          '(* scope.h call_scope_t::get<expr_t::ptr_op_t> checks the index (any/all without argument) *)',
+          'Definition src_expr_argument_guard : bool := %s.' % bl(g['expr_argument_guard']),
+          '(* main.cc: the --script loop is `while (status == 0 && std::getline(in, line))` after an open check *)',
+          'Definition src_script_loop_guard : bool := %s.' % bl(g['script_loop_guard']),
+          '(* filters.cc: no `xact.journal->master` (generated budget/forecast transactions have no journal) *)',
+          'Definition src_no_xact_journal_master : bool := %s.' % bl(g['no_xact_journal_master']),
+          '(* account.cc find_account (recursive, one call per name segment) declares no fixed char array *)',
+          'Definition src_find_account_no_frame_buffer : bool := %s.' % bl(g['find_account_no_frame_buffer']),
           '(* utils.h: assert(x) throws assertion_failed (NO_ASSERTS 0 unless DISABLE_ASSERTS) *)',
           'Definition src_asserts_throw : bool := %s.' % ('true' if flags['asserts'] else 'false'),
           '(* utils.h: READ_INTO / READ_INTO_ are textually the loops transcribed in Model/Buffers.v *)',
